@@ -612,6 +612,121 @@ Proof.
   - rewrite flat_map_app', Hlog0. simpl. clear. induction pos; simpl; [reflexivity | f_equal; assumption].
 Qed.
 
+
+(* construction order for ARBITRARY trees: build_antennas recursing through the subsets as written.
+   tree_positions: the antenna positions of the tree in subset order (loose antennas / lists kept in place);
+   constructed_positions: those of them at which build_antennas constructs an antenna. *)
+Fixpoint tree_positions (t : det) : list ant :=
+  match t with
+  | Ant a => [a]
+  | AList l => l
+  | Node _ k _ pos subs =>
+    if is_base subs then match k with KDet _ => pos | KComb => [] end
+    else flat_map tree_positions subs
+  end.
+Fixpoint constructed_positions (t : det) : list ant :=
+  match t with
+  | Node _ k _ pos subs =>
+    if is_base subs then match k with KDet _ => pos | KComb => [] end
+    else flat_map constructed_positions subs
+  | _ => []
+  end.
+Definition built_ids (lg : list logent) : list Z :=
+  flat_map (fun x => match x with LAnt a _ _ _ => [a] | _ => [] end) lg.
+
+Lemma built_ids_app l1 l2 : built_ids (l1 ++ l2) = built_ids l1 ++ built_ids l2.
+Proof. unfold built_ids. apply flat_map_app'. Qed.
+
+Lemma pre_build_no_ants ct o k args kw args1 kw1 log0 :
+  pre_build ct o k args kw = Ok (args1, kw1, log0) -> built_ids log0 = [].
+Proof.
+  unfold pre_build. destruct k as [c|]; [|intros H; inversion H; reflexivity].
+  destruct (c_build (ct c)) as [ps|]; [|intros H; inversion H; reflexivity].
+  destruct (bind ps false args kw) as [[named extra]|]; intros H; inversion H; reflexivity.
+Qed.
+
+Lemma map_Ant_flatten l : flat_map flatten (map Ant l) = l.
+Proof. induction l; simpl; [reflexivity | f_equal; assumption]. Qed.
+
+Lemma build_subs_order ct matching args1 kw1 : forall l,
+  Forall (fun t => forall args kw t' lg, build ct t args kw = (t', None, lg) ->
+            flatten t' = tree_positions t /\ built_ids lg = map a_id (constructed_positions t)) l ->
+  forall l' lg0, build_subs (build ct) matching args1 kw1 l = (l', None, lg0) ->
+  flat_map flatten l' = flat_map tree_positions l /\
+  built_ids lg0 = map a_id (flat_map constructed_positions l).
+Proof.
+  induction l as [|s r IHr]; intros HF l' lg0 Hg.
+  - simpl in Hg. inversion Hg. split; reflexivity.
+  - inversion HF as [|? ? Hs Hr]; subst. cbn [build_subs] in Hg.
+    destruct s as [a|al|o' k' m' p' ss].
+    + destruct (build_subs (build ct) matching args1 kw1 r) as [[r' e2] lg2] eqn:Er. inversion Hg; subst.
+      destruct (IHr Hr _ _ eq_refl) as [H1 H2]. cbn [flat_map flatten tree_positions constructed_positions].
+      rewrite H1. split; [reflexivity | exact H2].
+    + destruct (build_subs (build ct) matching args1 kw1 r) as [[r' e2] lg2] eqn:Er. inversion Hg; subst.
+      destruct (IHr Hr _ _ eq_refl) as [H1 H2]. cbn [flat_map flatten tree_positions constructed_positions].
+      rewrite H1. split; [reflexivity | exact H2].
+    + destruct (if matching then build ct (Node o' k' m' p' ss) args1 kw1
+                else build ct (Node o' k' m' p' ss) [] (route_build m' kw1)) as [[s' e] lg1] eqn:Es.
+      destruct e as [e|]; [inversion Hg|].
+      destruct (build_subs (build ct) matching args1 kw1 r) as [[r' e2] lg2] eqn:Er. inversion Hg; subst.
+      assert (Hs' : flatten s' = tree_positions (Node o' k' m' p' ss) /\
+                    built_ids lg1 = map a_id (constructed_positions (Node o' k' m' p' ss))).
+      { destruct matching; eapply Hs; exact Es. }
+      destruct Hs' as [Hs1 Hs2]. destruct (IHr Hr _ _ eq_refl) as [H1 H2].
+      cbn [flat_map]. rewrite Hs1, H1, built_ids_app, Hs2, H2, map_app. split; reflexivity.
+Qed.
+
+Lemma build_order_lemma ct : forall t args kw t' lg,
+  build ct t args kw = (t', None, lg) ->
+  flatten t' = tree_positions t /\ built_ids lg = map a_id (constructed_positions t).
+Proof.
+  induction t as [a|l|o k m p subs IH] using det_ind'; intros args kw t' lg H; try discriminate.
+  cbn [build] in H.
+  destruct (pre_build ct o k args kw) as [[[args1 kw1] log0]|e] eqn:Ep; [|discriminate].
+  pose proof (pre_build_no_ants _ _ _ _ _ _ _ _ Ep) as Hlog0.
+  cbn [tree_positions constructed_positions].
+  destruct (is_base subs) eqn:Eb.
+  - destruct (match kw_lookup K_ANTENNA_CLASS kw1 with
+              | Some ac => Some (ac, args1, remove_key K_ANTENNA_CLASS kw1)
+              | None => match args1 with a :: r => Some (a, r, kw1) | [] => None end
+              end) as [[[ac args2] kw2]|]; [|discriminate].
+    inversion H; subst; clear H. cbn [flatten]. rewrite map_Ant_flatten, built_ids_app, Hlog0. split; [reflexivity|].
+    simpl. unfold built_ids. generalize (match k with KDet _ => p | KComb => [] end). intros q.
+    induction q; simpl; [reflexivity | f_equal; assumption].
+  - set (matching := builds_match subs) in H.
+    destruct (negb matching && negb (Nat.eqb (length args1) 0)); [discriminate|].
+    destruct (build_subs (build ct) matching args1 kw1 subs) as [[subs' e] lg0] eqn:Eg.
+    inversion H; subst; clear H.
+    destruct (build_subs_order ct matching args1 kw1 subs IH _ _ Eg) as [H1 H2].
+    cbn [flatten]. rewrite built_ids_app, Hlog0. simpl. split; assumption.
+Qed.
+
+(* when every antenna of the tree sits in a detector (no loose antennas / lists), iteration after a
+   successful build visits exactly the antennas constructed, in construction order *)
+Fixpoint no_loose (t : det) : Prop :=
+  match t with
+  | Node _ _ _ _ subs =>
+    if is_base subs then True
+    else (fix all l := match l with [] => True | s :: r => is_node s = true /\ no_loose s /\ all r end) subs
+  | _ => False
+  end.
+
+Lemma no_loose_positions : forall t, no_loose t -> tree_positions t = constructed_positions t.
+Proof.
+  induction t as [a|l|o k m p subs IH] using det_ind'; intros Hn; try contradiction.
+  cbn [tree_positions constructed_positions]. cbn [no_loose] in Hn. destruct (is_base subs); [reflexivity|].
+  induction subs as [|s r IHr]; [reflexivity|]. inversion IH as [|? ? Hs Hr]; subst.
+  destruct Hn as [_ [Hns Hnr]]. cbn [flat_map]. rewrite (Hs Hns), (IHr Hr Hnr). reflexivity.
+Qed.
+
+Lemma build_iterates_constructed ct t args kw t' lg :
+  no_loose t -> build ct t args kw = (t', None, lg) -> map a_id (flatten t') = built_ids lg.
+Proof.
+  intros Hn H. destruct (build_order_lemma ct t args kw t' lg H) as [H1 H2].
+  rewrite H1, H2, (no_loose_positions t Hn). reflexivity.
+Qed.
+
+
 (* ------------------------------------------------------------ non-vacuity examples *)
 Definition ex_ct : cls_table := fun c =>
   match c with
@@ -642,3 +757,14 @@ Proof. reflexivity. Qed.
 
 Example ex_rejected : new_base ex_ct 1 0 [(1, -1); (2, 1)] = Err EValue.
 Proof. reflexivity. Qed.
+
+Example ex_nested_build :
+  let s1 := Node 1 (KDet 0) SIG_DEFAULT_BUILD [(1, -1); (2, -2)] [] in
+  let s2 := Node 2 (KDet 0) SIG_DEFAULT_BUILD [(3, -1)] [] in
+  let stn := Node 3 (KDet 0) SIG_DEFAULT_BUILD [] [s1; s2] in
+  let comb := Node 4 KComb SIG_DEFAULT_BUILD [] [stn; Node 5 (KDet 0) SIG_DEFAULT_BUILD [(4, -3)] []] in
+  no_loose comb /\
+  exists t' lg, build ex_ct comb [] [(K_ANTENNA_CLASS, 0)] = (t', None, lg) /\
+                map a_id (flatten t') = [1; 2; 3; 4] /\ built_ids lg = [1; 2; 3; 4].
+Proof. simpl. split; [tauto|]. do 2 eexists. repeat split; reflexivity. Qed.
+
